@@ -508,7 +508,10 @@ Fixpoint parse_selectors (fuel : nat) (pat : str) (custom : cmap) (pos : nat) (i
                match grp pat t (if child then tok_pseudo_nth_child_g_nth_child else tok_pseudo_nth_type_g_nth_type) with
                | None => Raise TypeError
                | Some content =>
-                 do anb <- parse_anb (lower content) ;;
+                 do anb <- (match parse_anb (lower content) with
+                            | Raise ValueError => Raise (SelectorSyntaxError (Some (k_start t)))   (* try/except ValueError *)
+                            | r => r
+                            end) ;;
                  let '(a, var, b) := anb in
                  if child then
                    do r <- (match grp_nonempty pat t tok_pseudo_nth_child_g_of with
